@@ -69,6 +69,7 @@ struct Config {
   uint64_t tail_budget_min = 100000;  // quiet tail budget = max(this, tail_factor * steps used)
   int tail_factor = 20;
   // scheduling policy (search mode)
+  int freeze_pct = 0;        // search mode: probability (percent) that a pre-empted task is kept away from the processor for 32..4096 further steps
   int mem_switch_log2 = 6;   // P(preempt at plain memory access) = 2^-k ; 0xff = never
   int sync_switch_log2 = 2;  // P(preempt at atomic / wrapped call)
   int fair_quantum = 3000;   // forced round-robin switch after this many consecutive yields of one task with others runnable
